@@ -14,6 +14,11 @@ K3 == {[text |-> <<32>>, tok |-> 0, ty |-> "", val |-> << >>], [text |-> <<10>>,
 
 K4 == {[text |-> <<32>>, tok |-> 0, ty |-> "", val |-> << >>], [text |-> <<10>>, tok |-> 0, ty |-> "", val |-> << >>], [text |-> <<13>>, tok |-> 0, ty |-> "", val |-> << >>], [text |-> <<9>>, tok |-> 0, ty |-> "", val |-> << >>], [text |-> <<35>>, tok |-> 0, ty |-> "", val |-> << >>], [text |-> <<97>>, tok |-> 0, ty |-> "", val |-> << >>], [text |-> <<46>>, tok |-> 0, ty |-> "", val |-> << >>], [text |-> <<105>>, tok |-> 0, ty |-> "", val |-> << >>], [text |-> <<102>>, tok |-> 0, ty |-> "", val |-> << >>], [text |-> <<84>>, tok |-> 0, ty |-> "", val |-> << >>], [text |-> <<82>>, tok |-> 0, ty |-> "", val |-> << >>], [text |-> <<85>>, tok |-> 0, ty |-> "", val |-> << >>], [text |-> <<69>>, tok |-> 0, ty |-> "", val |-> << >>]}
 
+\* characters on which the host's character predicates and its numeric conversions disagree: superscript two,
+\* an Arabic-Indic digit, a circled digit (str.isdigit / int / float), a no-break space (str.isspace), a letter
+\* outside ASCII
+K5 == {[text |-> <<32>>, tok |-> 0, ty |-> "", val |-> << >>], [text |-> <<10>>, tok |-> 0, ty |-> "", val |-> << >>], [text |-> <<49>>, tok |-> 0, ty |-> "", val |-> << >>], [text |-> <<46>>, tok |-> 0, ty |-> "", val |-> << >>], [text |-> <<178>>, tok |-> 0, ty |-> "", val |-> << >>], [text |-> <<1635>>, tok |-> 0, ty |-> "", val |-> << >>], [text |-> <<160>>, tok |-> 0, ty |-> "", val |-> << >>], [text |-> <<233>>, tok |-> 0, ty |-> "", val |-> << >>], [text |-> <<9314>>, tok |-> 0, ty |-> "", val |-> << >>], [text |-> <<95>>, tok |-> 0, ty |-> "", val |-> << >>], [text |-> <<120>>, tok |-> 0, ty |-> "", val |-> << >>], [text |-> <<34>>, tok |-> 0, ty |-> "", val |-> << >>]}
+
 SEP == {[text |-> <<32>>, tok |-> 0, ty |-> "", val |-> << >>],
         [text |-> <<9>>, tok |-> 0, ty |-> "", val |-> << >>],
         [text |-> <<10>>, tok |-> 0, ty |-> "", val |-> << >>],
